@@ -21,6 +21,9 @@ for seed in sorted(rows, key=key):
     meta = json.load(open('/verif/seeded/%s/meta.json' % seed))
     files = ', '.join(os.path.basename(f) for f in meta['files'])
     for pid, ex, ob, nf in rows[seed]:
+        if ex != '1' and meta.get('not_caught'):
+            out.append('| %s | %s | %s | **not caught** | %s |  |' % (seed, files, pid, meta['not_caught'][:200].replace('|', '\\|')))
+            continue
         verdict = 'caught' if ex == '1' else ('not a violation of %s on the current tree (see meta.json)' % pid if meta.get('also_checks') and pid == meta['property'] and ex == '0' else 'exit %s' % ex)
         out.append('| %s | %s | %s | %s | %s | %s |' % (seed, files, pid, verdict, ob.replace('|', '\\|')[:120], '' if ex != '1' else ('no' if nf else 'yes')))
 p = '/verif/DESIGN.md'
